@@ -10,7 +10,7 @@ from .common import rust_str
 def build_perm(tier, seed):
     b = Builder("p", tier, seed)
     rng = b.rng
-    tags = ["C07", "C01"]
+    tags = ["C07", "C01", "C03"]
     # ---- strings: permutations of the full built-in set and of its subsets
     full = ["len_char_min", "len_char_max", "not_empty", "regex", "predicate"]
 
@@ -37,7 +37,7 @@ def build_perm(tier, seed):
                 d.vals.append(Vld(k, '"^[a-z ]+$"', "^[a-z ]+$"))
             elif k == "predicate":
                 add_predicate(d, "x.contains('a')", SPELLINGS[len(b.decls) % 3])
-        d.derives = ["Debug"]
+        d.derives = ["Debug", "TryFrom", "FromStr"]
         return d
 
     perms = list(itertools.permutations(full))
@@ -123,6 +123,9 @@ def build_perm(tier, seed):
     d = b.new(inner_string(), tags=tags); d.sans += [San("trim"), San("lowercase")]; add_custom_validation(d, "x.len() % 2 == 0"); d.derives = ["Debug"]
     d = b.new(OTHER_INNERS["vec"], tags=tags); add_with_sanitizer(d, "{ let mut x = x; x.sort(); x }", "mut"); add_custom_validation(d, "x.first() != Some(&0)"); d.derives = ["Debug"]
     d = b.new(OTHER_INNERS["point"], tags=tags); add_custom_validation(d, "x.x <= x.y"); d.derives = ["Debug"]
+    for d in b.decls:
+        if "TryFrom" not in d.derives:
+            d.derives.append("TryFrom")
     return b.decls
 
 
@@ -171,6 +174,42 @@ def build_message(tier, seed):
                 else:
                     d.support.append(f"const N: usize = {n};")
                     d.vals.append(Vld(k, "N", n))
+                d.derives = ["Debug", "FromStr"]
+    # type names that collide with the suffixes the macro derives error-type names from
+    for nm in ("RelativeError", "DriftError", "ParseError", "ErrorError", "MyErrorKind", "Errors"):
+        for (inner, vld) in ((inner_int("i32"), int_bound("greater", "i32", 5, "lit", None)), (inner_float("f64"), None), (inner_string(), Vld("len_char_max", "3", 3))):
+            d = b.new(inner, tags=tags, type_name=nm + ("I" if inner.fam == "int" else "F" if inner.fam == "float" else "S") if False else nm)
+            d.type_name = nm
+            if vld is None:
+                vld = float_bound("less", "f64", "2.5", None, Fraction(5, 2), d)
+            d.vals.append(vld)
+            d.derives = ["Debug", "FromStr"]
+    # constant / expression float bounds whose rendering needs many digits or an exponent
+    for ty in FLOAT_TYPES:
+        exprs = [("TINY", "const TINY: %s = 1e-15;" % ty, Fraction(1, 10 ** 15)), ("NEG_TINY", "const NEG_TINY: %s = -2.5e-13;" % ty, Fraction(-25, 10 ** 14)),
+                 ("1.0 / 3.0", "", None), ("HUGE", "const HUGE: %s = %s;" % (ty, "1e30" if ty == "f32" else "1e300"), Fraction(10) ** (30 if ty == "f32" else 300)),
+                 ("K * 0.1", "const K: %s = 0.284;" % ty, None), ("%s::EPSILON" % ty, "", None)]
+        for (txt, sup, ex) in exprs:
+            for k in ("greater", "less", "greater_or_equal"):
+                d = b.new(inner_float(ty), tags=tags)
+                if sup:
+                    d.support.append(sup)
+                if ex is None:
+                    # evaluate the expression exactly as Rust does, in the declaration's float type
+                    import struct
+                    def f32r(x):
+                        return struct.unpack("<f", struct.pack("<f", x))[0]
+                    if txt == "1.0 / 3.0":
+                        val = (f32r(1.0) / f32r(3.0)) if ty == "f32" else 1.0 / 3.0
+                        val = f32r(val) if ty == "f32" else val
+                    elif txt.startswith("K"):
+                        val = f32r(f32r(0.284) * f32r(0.1)) if ty == "f32" else 0.284 * 0.1
+                    else:
+                        val = 2.0 ** -23 if ty == "f32" else 2.0 ** -52
+                    den = ("f32", struct.unpack("<I", struct.pack("<f", val))[0]) if ty == "f32" else ("f64", struct.unpack("<Q", struct.pack("<d", val))[0])
+                else:
+                    den = float_denote(ty, ex)
+                d.vals.append(Vld(k, txt, den))
                 d.derives = ["Debug", "FromStr"]
     # several validators in one declaration: every variant's text must stay truthful next to the others
     # (bounds far apart, so the neighbourhood of one bound satisfies the other)
@@ -250,6 +289,18 @@ def build_finite(tier, seed):
                 if ty == "f32" and n32 < 8 and not with_san:
                     d.tags.append("sweep32")
                     n32 += 1
+        # const_fn variants (the const path must keep the NaN / infinity check)
+        for ci, c in enumerate(combos[:5]):
+            if any(k == "predicate" for k, _ in c):
+                continue
+            d = b.new(inner_float(ty), tags=list(tags))
+            for (k, arg) in c:
+                if k == "finite":
+                    d.vals.append(Vld("finite"))
+                else:
+                    d.vals.append(float_bound(k, ty, arg[0], None, arg[1], d))
+            d.const_fn = True
+            d.derives = list(der)
         # invalid (non-finite) defaults: Default::default() must panic rather than hand out NaN / inf
         import math
         for (txt, den) in ((f"{ty}::NAN", float_denote(ty, math.nan) if False else None), (f"{ty}::INFINITY", float_denote(ty, math.inf)), (f"-{ty}::INFINITY", float_denote(ty, -math.inf))):
@@ -327,6 +378,13 @@ def build_defaults(tier, seed):
         den = float_denote(ty, dex) if dex is not None else ("f64", 0x7FF8000000000000)
         d.default = (dtxt, den)
         d.derives = ["Debug", "Default", "TryFrom"]
+    for ty, bound in (("i32", 2), ("u8", 3)):
+        d = b.new(inner_int(ty), tags=list(tags) + ["default_seq=0,1,2,3,4"])
+        d.support.append("static TICKET: ::core::sync::atomic::AtomicU32 = ::core::sync::atomic::AtomicU32::new(0);\n"
+                         "fn next_ticket() -> %s { TICKET.fetch_add(1, ::core::sync::atomic::Ordering::SeqCst) as %s }" % (ty, ty))
+        d.vals.append(int_bound("less", ty, bound, "lit", d))
+        d.default = ("next_ticket()", 0)
+        d.derives = ["Debug", "Default"]
     scases = [("format!(\"{x}{x}\")", [("len_char_max", 5)], "abc"), ("format!(\"{x}{x}\")", [("len_char_max", 6)], "abc"),
               ("x.replace('x', \" \")", [("not_empty", None)], "xx"), ("x.chars().take(3).collect()", [("len_char_max", 3)], "abcdef")]
     for (body, vs, dflt) in scases:
